@@ -442,3 +442,105 @@ def taint_rule(m, rid, triage=None):
     if stale:
         r.notes.append("triage entries no longer needed (the analysis proves them or the code changed): %s" % stale)
     return r
+
+
+# =================================================================================================
+# C19.R9: an embedded statement does not inherit the label of the statement it is embedded in
+# =================================================================================================
+def embedded_label_rule(m, rid):
+    r = RuleResult(rid, "fparser1: the item built for a statement embedded in a one-line IF/WHERE/FORALL is a copy of the outer item with the "
+                        "label cleared (the label is printed once, by the outer statement)")
+    r.floor = 3
+    stmt = m.key("Statement", BC)
+    for k in sorted(m.classes):
+        c = m.classes[k]
+        if c["module"] not in ONE or not m.issub(k, stmt) or "process_item" not in c["own"]:
+            continue
+        f = m.method(k, "process_item")
+        if f is None:
+            continue
+        body = list(A.body_nodes(f.node))
+        # statements stored in self.content
+        stored = set()
+        for n in body:
+            if isinstance(n, ast.Assign) and any(A.text(t) == "self.content" for t in n.targets):
+                stored |= {x.id for x in ast.walk(n.value) if isinstance(x, ast.Name)}
+            if isinstance(n, ast.Call) and A.text(n.func) in ("self.content.append", "self.content.insert"):
+                stored |= {x.id for a in n.args for x in ast.walk(a) if isinstance(x, ast.Name)}
+        copies = {}     # local name -> the copy() call
+        for n in body:
+            if isinstance(n, ast.Assign) and len(n.targets) == 1 and isinstance(n.targets[0], ast.Name) and isinstance(n.value, ast.Call) \
+                    and isinstance(n.value.func, ast.Attribute) and n.value.func.attr == "copy" and A.text(n.value.func.value) in ("item", "self.item"):
+                copies[n.targets[0].id] = n
+        cleared = {A.text(t.value) for n in body if isinstance(n, ast.Assign) for t in n.targets
+                   if isinstance(t, ast.Attribute) and t.attr == "label" and A.const(n.value, 1) is None}
+        for n in body:
+            if not (isinstance(n, ast.Assign) and len(n.targets) == 1 and isinstance(n.targets[0], ast.Name) and n.targets[0].id in stored
+                    and isinstance(n.value, ast.Call) and len(n.value.args) == 2 and A.text(n.value.args[0]) == "self"):
+                continue
+            arg = n.value.args[1]
+            inline = isinstance(arg, ast.Call) and isinstance(arg.func, ast.Attribute) and arg.func.attr == "copy" \
+                and A.text(arg.func.value) in ("item", "self.item")
+            if not inline and not (isinstance(arg, ast.Name) and arg.id in copies):
+                continue
+            r.instances += 1
+            ok = (not inline) and arg.id in cleared
+            r.ob(ok, "%s.process_item: embedded `%s` built from a label-free copy" % (c["name"], A.text(n.value)[:40]))
+            if not ok:
+                r.fail("%s.process_item|embedded-label" % c["name"], "%s.process_item builds the embedded statement `%s` from a copy of its own item that "
+                       "still carries the label: the label is printed by the outer statement and again in front of the embedded one "
+                       "('10 if (x) y = 1' -> '10 IF (x) 10 y = 1')" % (c["name"], A.text(n.value)[:50]), m.loc(f, n))
+    return r
+
+
+# =================================================================================================
+# C19.R10: the label field of regenerated fixed-form source: label within columns 1-5, column 6 blank
+# =================================================================================================
+def label_field_rule(m, rid):
+    from sa import pureeval as PE
+    r = RuleResult(rid, "fparser1 fixed-form output keeps a statement label inside columns 1-5 and leaves column 6 blank, for every label "
+                        "length and nesting depth")
+    r.floor = 20
+    k = m.key("Statement", BC)
+    f = m.method(k, "get_indent_tab")
+    if f is None:
+        r.error("Statement.get_indent_tab vanished")
+        return r
+    tail = None
+    for i, s_ in enumerate(f.node.body):
+        if isinstance(s_, ast.Assign) and A.text(s_.value) == "str(label)":
+            tail = f.node.body[i:]
+    if tail is None:
+        r.error("Statement.get_indent_tab: the label formatting part (`s = str(label)` ...) was not found (anchor changed)")
+        return r
+    ev = PE.Evaluator({})
+    bad = []
+    try:
+        for isfix in (True, False):
+            for label in (1, 10, 100, 1000, 12345, 99999):
+                for depth in (0, 1, 2, 5):
+                    r.instances += 1
+                    tab0 = (" " * 6 if isfix else "") + "  " * depth
+                    env = {"label": label, "isfix": isfix, "tab": tab0}
+                    try:
+                        ev.block(tail, env)
+                        got = env.get("tab")
+                    except PE._Return as ret:
+                        got = ret.value
+                    if isfix:
+                        ok = isinstance(got, str) and len(got) >= 6 and got[:5].strip() == str(label) and got[5] == " "
+                    else:
+                        ok = isinstance(got, str) and got.lstrip().startswith(str(label)) and got.endswith(" ") and got.split() == [str(label)]
+                    r.ob(ok, "isfix=%s label=%s depth=%d -> %r" % (isfix, label, depth, got) if r.instances % 8 == 0 else None)
+                    if not ok:
+                        bad.append((isfix, label, depth, got))
+    except PE.Unsupported as err:
+        r.error("Statement.get_indent_tab: cannot interpret the label formatting statically (%s)" % err)
+        return r
+    if bad:
+        isfix, label, depth, got = bad[0]
+        r.fail("Statement.get_indent_tab|label-field|%s" % ("fix" if isfix else "free"), "Statement.get_indent_tab gives %r for label %s (%s form, "
+               "depth %d): %s (%d cases)" % (got, label, "fixed" if isfix else "free", depth,
+                                            "the label must lie within columns 1-5 and column 6 must stay blank" if isfix else
+                                            "the label must be followed by a blank", len(bad)), m.loc(f, tail[0]))
+    return r
